@@ -13,6 +13,7 @@ CONSTANTS
   Deviations = {"OrphanFronts", "TcpFrontLastWins"}
   Deterministic = TRUE
   Preamble <- NoPreamble
+  Traffic = FALSE
   Emit = TRUE
 VIEW GenView
 INVARIANTS EmitState
